@@ -76,6 +76,8 @@ Init ==
   \/ \E a \in GI, b \in GI : case = [kind |-> "csqrt_exact", z |-> Sq(a, b), root |-> Principal(a, b)]
   \/ \E t \in Triples : case = [kind |-> "hypot_exact", x |-> t[1], y |-> t[2], h |-> t[3]]
   \/ \E a \in -3..3, b \in -3..3, k \in 0..8 : case = [kind |-> "cipow_exact", base |-> <<a, b>>, k |-> k, out |-> CPowI(<<a, b>>, k)]
+  \* negative exponents: the exact value is the reciprocal of the Gaussian integer `inv` (the harness forms the rational)
+  \/ \E a \in -3..3, b \in -3..3, k \in 1..8 : (a # 0 \/ b # 0) /\ case = [kind |-> "cipow_neg", base |-> <<a, b>>, k |-> -k, inv |-> CPowI(<<a, b>>, k)]
   \/ \E u \in Units, k \in {-200, -199, -7, -5, -2, -1, 0, 1, 2, 3, 50, 101, 199, 200} :
         case = [kind |-> "unitpow_exact", base |-> u, k |-> k, out |-> UnitPow(u, k)]
   \/ \E k \in 0..170 : case = [kind |-> "double_factorial", n |-> k, vec |-> DFVec(k)]
@@ -88,6 +90,8 @@ C20_RootSquares == case.kind = "csqrt_exact" =>
     /\ (case.root[1] > 0 \/ (case.root[1] = 0 /\ case.root[2] >= 0))
 C20_Pythagoras == case.kind = "hypot_exact" => case.x * case.x + case.y * case.y = case.h * case.h
 C20_PowerRecurrence == case.kind = "cipow_exact" /\ case.k > 0 => case.out = CMulI(case.base, CPowI(case.base, case.k - 1))
+C20_NegPower == case.kind = "cipow_neg" => /\ case.inv = CMulI(case.base, CPowI(case.base, -case.k - 1))
+                                            /\ case.inv # <<0, 0>>              \* Gaussian integers have no zero divisors: the reciprocal exists
 C20_UnitCycle == case.kind = "unitpow_exact" => CMulI(case.out, UnitPow(case.base, -case.k)) = <<1, 0>>
 C20_TablesTotalAndConjugate ==
     /\ case.kind = "csqrt_class" => /\ case.out[1] \in {"+inf", "+fin", "+0", "nan"}                  \* real part never negative
